@@ -60,13 +60,16 @@ def req_line(method, path, headers, body, newid, now):
 class Sess:
     def __init__(self, out, port):
         self.out, self.port = out, port
-    def call(self, meta, method, path, headers, body=b''):
+    def call(self, meta, method, path, headers, body=b'', kind='http'):
         now = int(time.time())
         st, h, data = http_req(self.port, method, path, headers, body)
         newid = h.get('x-version-id', '-') if (st == 200 and '/add-version/' in path) else '-'
         self.out.write(f"# {meta}\n")
         # the content-length / host headers http.client adds are not part of the model's request
-        self.out.write(req_line(method, path, headers, body, newid, now) + ' => ' + obs_line(st, h, data) + '\n')
+        line = req_line(method, path, headers, body, newid, now) + ' => ' + obs_line(st, h, data) + '\n'
+        # kind 'xhttp': a response observed in a situation the model does not describe (the storage has been destroyed
+        # under the running server); judged by the property oracles only
+        self.out.write(('x' + line) if kind == 'xhttp' else line)
         return st, h, data
 
 def gen_config(rng):
@@ -158,11 +161,12 @@ def expected(cli):
     dd = raw(cli['d'], cli['D'], False)
     return {'listen': listen, 'allow': allow, 'versions': int(sv[-1]) if sv else 100, 'days': int(sd[-1]) if sd else 14, 'dir': dd[-1] if dd else '/var/lib/taskchampion-sync-server'}
 
-def start(binp, argv, env):
+def start(binp, argv, env, quiet=False):
     e = {k: v for k, v in os.environ.items() if k not in ('LISTEN', 'DATA_DIR', 'CLIENT_ID', 'SNAPSHOT_VERSIONS', 'SNAPSHOT_DAYS')}
     e.update(env)
     e['RUST_LOG'] = 'error'
-    return subprocess.Popen([binp] + argv, env=e, stdout=subprocess.DEVNULL, stderr=subprocess.PIPE)
+    # quiet: a run in which many requests fail would fill the stderr pipe with logged backtraces and block the server
+    return subprocess.Popen([binp] + argv, env=e, stdout=subprocess.DEVNULL, stderr=subprocess.DEVNULL if quiet else subprocess.PIPE)
 
 def wait_ports(proc, ports, timeout=8.0):
     t0 = time.time()
@@ -303,14 +307,66 @@ def run_config(out, binp, rng, hi):
         shutil.rmtree(work, ignore_errors=True)
         out.write(f"end h={hi} dead=0\n")
 
-def main(out_path, seed, first, n):
+def run_broken(out, binp, rng, hi):
+    """the real executable, with its storage destroyed while it runs: every request that reaches the storage fails, and the
+    responses to those failures come from the error handling of `main`, which no in-process run of the library exercises"""
+    base = os.environ.get('VERIF_SCRATCH', '/dev/shm')
+    work = tempfile.mkdtemp(prefix='tcsc17b', dir=base if os.path.isdir(base) else None)
+    datadir = os.path.join(work, 'data')
+    port = free_ports(1)[0]
+    proc = None
+    try:
+        out.write(f"run h={hi} setup=binary-broken backend=sql entry=http binary=1 days=14 versions=100 allow=none clients=\n")
+        proc = start(binp, ['--listen', f'127.0.0.1:{port}', '--data-dir', datadir], {}, quiet=True)
+        ok = wait_ports(proc, [port])
+        if not ok:
+            out.write("# startup failed\n")
+            return
+        c = str(uuid.UUID(int=rng.getrandbits(128), version=4))
+        s = Sess(out, port)
+        st, h, _ = s.call("i=1 op=av", 'POST', f'/v1/client/add-version/{NIL}', [('Content-Type', HS_CT), ('X-Client-Id', c)], b'A')
+        v = h.get('x-version-id', NIL)
+        how = rng.choice(['garbage', 'truncate', 'directory'])
+        for f in os.listdir(datadir):
+            fp = os.path.join(datadir, f)
+            if f == DBFILE:
+                if how == 'garbage':
+                    open(fp, 'wb').write(bytes(rng.getrandbits(8) for _ in range(8192)))
+                elif how == 'truncate':
+                    open(fp, 'wb').write(b'SQLite format 3\x00' + b'\x00' * 50)
+                else:
+                    os.unlink(fp); os.mkdir(fp)
+            else:
+                os.unlink(fp)
+        out.write(f"# i=2 op=destroy how={how}\n")
+        k = 2
+        for (m, meth, path, hdrs, body) in [
+                ('index', 'GET', '/', [], b''),
+                ('gcv', 'GET', f'/v1/client/get-child-version/{NIL}', [('X-Client-Id', c)], b''),
+                ('gcv2', 'GET', f'/v1/client/get-child-version/{v}', [('X-Client-Id', c)], b''),
+                ('av', 'POST', f'/v1/client/add-version/{v}', [('Content-Type', HS_CT), ('X-Client-Id', c)], b'B'),
+                ('as', 'POST', f'/v1/client/add-snapshot/{v}', [('Content-Type', SNAP_CT), ('X-Client-Id', c)], b'S'),
+                ('gs', 'GET', '/v1/client/snapshot', [('X-Client-Id', c)], b''),
+                ('av-newclient', 'POST', f'/v1/client/add-version/{NIL}', [('Content-Type', HS_CT), ('X-Client-Id', str(uuid.UUID(int=rng.getrandbits(128), version=4)))], b'C'),
+                ('unknown', 'GET', '/v1/client/nothing-here', [('X-Client-Id', c)], b''),
+                ('bad-ct', 'POST', f'/v1/client/add-version/{v}', [('Content-Type', 'text/plain'), ('X-Client-Id', c)], b'B'),
+                ('no-id', 'GET', '/v1/client/snapshot', [], b'')]:
+            k += 1
+            s.call(f"i={k} op=broken route={m}", meth, path, hdrs, body, kind='xhttp')
+    finally:
+        if proc is not None and proc.poll() is None:
+            proc.kill(); proc.wait()
+        shutil.rmtree(work, ignore_errors=True)
+        out.write(f"end h={hi} dead=0\n")
+
+def main(out_path, seed, first, n, mode='config'):
     binp = BIN
     if not os.path.exists(binp):
         build_binary()
     with open(out_path, 'w') as out:
         for hi in range(first, first + n):
             rng = random.Random(seed * 1000003 + hi)
-            run_config(out, binp, rng, hi)
+            (run_broken if mode == 'broken' else run_config)(out, binp, rng, hi)
 
 if __name__ == '__main__':
     build_binary()
